@@ -1323,6 +1323,16 @@ class Gen:
                 self.emit("    #[verifier::external_body]\n    pub fn %s<VerifT: ?Sized>(&mut self, node: &VerifT) -> (r: Result<(), Diagnostic>)\n        ensures %s,\n    { unimplemented!() }" % (nm, autostub))
             if called:
                 self.notes.append("ASSUMED stand-ins (default trait methods / overrides not extracted) in impl %s: %s" % (newh, ", ".join(called)))
+        # an impl of Visitor / Fold changes the traversal by every method it overrides: all of them must be under contract
+        # (or named in `unlisted=a,b` with the unit saying why); an override the unit does not know is a lost anchor
+        if re.search(r"\b(Visitor|Fold)\s*<", im["header"]):
+            allm = set(re.findall(r"\bfn\s+(\w+)\s*[<(]", s.m[im["open"]:im["close"]]))
+            # only depth-1 functions of the impl
+            allm = set(nm for nm in allm if s.find_fn(nm, im["open"] + 1, im["close"]))
+            ok = set(kv.get("unlisted", "").split(",")) if kv.get("unlisted") else set()
+            extra_m = sorted(allm - defined - ok)
+            if extra_m:
+                raise AnchorLost("impl %s in %s overrides %s, which %s does not put under contract" % (header, rel, ", ".join(extra_m), self.unit))
         self.emit("}")
         return i
 
